@@ -70,7 +70,7 @@ func count(s *Store, ctx context.Context, builders ...func(query *bun.SelectQuer
 		query = query.Apply(builder)
 	}
 	return s.bucket.db.NewSelect().
-		TableExpr("(" + query.String() + ") data").
+		TableExpr("(?) data", query).
 		Count(ctx)
 }
 
